@@ -93,6 +93,8 @@ LIST_METHODS = {"append", "extend", "index", "insert", "count", "sort"}
 
 
 def sym_attr(I, o, name):
+    if isinstance(o, (V.DDEntry, V.MDefaultDict)):
+        return SymMethod(o, name)
     if isinstance(o, MList):
         return SymMethod(o, name)
     if isinstance(o, MDict):
@@ -256,6 +258,7 @@ def to_str(I, v):
 
 
 PY_STR = z3.Function("py_str", V.Val, z3.StringSort())
+PY_SORTED = z3.Function("py_sorted", V.VL, V.VL)
 PY_JOIN = z3.Function("py_join", z3.StringSort(), V.Val, z3.StringSort())
 
 
@@ -318,6 +321,10 @@ def get_slice(I, o, lo, hi, st):
 
 
 def get_item(I, o, k):
+    if isinstance(o, V.MDefaultDict):
+        return V.DDEntry(o, lower(k))
+    if isinstance(o, V.DDEntry):
+        return get_item(I, SV(o.t), k)
     if isinstance(o, dict):
         # symbolic key into a concrete dict: ite chain, KeyError otherwise
         kt = lower(k)
@@ -437,7 +444,7 @@ def exit_context(I, cm, exc):
 
 def _seq_term(I, it):
     """If `it` is a symbolic sequence with non-concrete spine return its VL term."""
-    if isinstance(it, MList):
+    if isinstance(it, (MList, V.DDEntry)):
         it = SV(it.t)
     if isinstance(it, SV):
         t = _simpl(it.t)
@@ -742,7 +749,7 @@ def symbolic_for(I, st, it, env, module):
     elif isinstance(it, Obj) and hasattr(it.cls, "__pyvc_for__"):
         return it.cls.__pyvc_for__(I, st, it, env, module)
     else:
-        xs = _seq_term(I, it) if isinstance(it, (SV, MList)) else None
+        xs = _seq_term(I, it) if isinstance(it, (SV, MList, V.DDEntry)) else None
     if xs is None:
         return False
     fnq = env.lookup("__fn__").qualname if env.has("__fn__") else "?"
@@ -766,7 +773,7 @@ def symbolic_for(I, st, it, env, module):
                 pass
         return out
     if spec is not None:
-        I.p.oblige(f"{label}.init", spec(xs, xs, state(), I), "inv-init")
+        I.p.oblige(f"{label}.init", spec(xs, xs, state(), I, env), "inv-init")
     I.p.counter += 1
     which = z3.Bool(f"loop!{I.p.counter}!iteration")
     if I.p.branch(which, f"loop@{st.lineno}:arbitrary-iteration"):
@@ -780,7 +787,7 @@ def symbolic_for(I, st, it, env, module):
             _havoc(I, env, pth, "loopvar")
         rest = V.VCons(x, rest1)
         if spec is not None:
-            I.p.assume(spec(rest, xs, state(), I))
+            I.p.assume(spec(rest, xs, state(), I, env))
         else:
             I.p.imprecise = True
         if index_start is not None:
@@ -796,12 +803,12 @@ def symbolic_for(I, st, it, env, module):
             I.p.imprecise = True
             return True          # state after `break` is the state of this iteration
         if spec is not None:
-            I.p.oblige(f"{label}.step", spec(rest1, xs, state(), I), "inv-step")
+            I.p.oblige(f"{label}.step", spec(rest1, xs, state(), I, env), "inv-step")
         raise PathAbort()
     for pth in mod:
         _havoc(I, env, pth, "loopout")
     if spec is not None:
-        I.p.assume(spec(V.VNil, xs, state(), I))
+        I.p.assume(spec(V.VNil, xs, state(), I, env))
     else:
         I.p.imprecise = True
     I.exec_block(st.orelse, env, module)
@@ -826,6 +833,17 @@ MUTATING = {"append", "extend", "insert", "pop", "remove", "clear", "sort", "rev
 
 
 def call_sym_method(I, recv, name, args, kwargs):
+    if isinstance(recv, V.DDEntry):
+        d, k = recv.d, recv.k
+        if name == "append":
+            d.t = V.VDict(V.d_set(V.vd(d.t), k, V.VList(V.vsnoc(V.vl(d.entry(k)), V.store_lower(args[0])))))
+            return None
+        if name == "extend":
+            d.t = V.VDict(V.d_set(V.vd(d.t), k, V.VList(V.vconcat(V.vl(d.entry(k)), V.vl(lower(args[0]))))))
+            return None
+        raise Unsupported(f"defaultdict entry .{name}")
+    if isinstance(recv, V.MDefaultDict):
+        raise Unsupported(f"defaultdict.{name}")
     if isinstance(recv, MList):
         return mlist_method(I, recv, name, args, kwargs)
     if isinstance(recv, MDict):
@@ -1274,6 +1292,11 @@ def _sorted(I, args, kwargs):
     xs = args[0]
     if isinstance(xs, (list, tuple, set, frozenset, dict)) and not deep_symbolic(xs) and not kwargs:
         return sorted(xs)
+    if isinstance(xs, (SV, MList)) and not kwargs:
+        t = lower(xs)
+        require_kind(I, t, V.is_VList, "sorted(arg)")
+        _used("sorted(): uninterpreted py_sorted(list) (a permutation of its argument in ascending order)")
+        return SV(V.VList(PY_SORTED(V.vl(t))))
     raise Unsupported("sorted() of symbolic data")
 
 
